@@ -38,7 +38,7 @@ static void c09_classify(char *w, char *ret) {
   if (c09_lit(&r->ns, "urn:xmpp:sm:3", 13) && r->nch == 0 && r->text->f1 == 0) {
     if (c09_lit(&r->tag, "r", 1) && r->nattr == 0) kind = K_REQ;
     else if (c09_lit(&r->tag, "enable", 6)) kind = K_ENABLE;
-    else if (c09_lit(&r->tag, "a", 1) || c09_lit(&r->tag, "resume", 6)) { uint8_t isack = c09_lit(&r->tag, "a", 1); QAD *hn; _ZN7QString17fromLatin1_helperEPKci((char*)&hn, (char*)"h", 1); int i = dn_attr(r, hn);
+    else if (c09_lit(&r->tag, "a", 1) || c09_lit(&r->tag, "resume", 6)) { uint8_t isack = c09_lit(&r->tag, "a", 1); QAD *hn = (QAD*)_ZN7QString17fromLatin1_helperEPKci((char*)"h", 1); int i = dn_attr(r, hn);
       if (i >= 0 && numS(r->av[i]).isnum && !numS(r->av[i]).neg && numS(r->av[i]).mag <= 0xffffffffULL && r->nattr == (isack ? 1u : 2u)) { kind = isack ? K_ACK : K_RESUME; val = (uint32_t)numS(r->av[i]).mag; } } }
   *(QAD**)ret = c09_blk(kind, val); }
 void _ZN5QXmpp7Private12serializeXmlINS0_5SmAckEEE10QByteArrayRKT_(char *ret, char *pkt) { char *w[2]; vp_writer_init((char*)w); F_vp_c09_toxml_ack(pkt, (char*)w); c09_classify((char*)w, ret); }
